@@ -87,3 +87,4 @@ def scenario_install_crash_images(binary, rng, shim_so, parse_journal, apply_mut
                 n2.kill9()
         obs["fatal_leader"] = [f for f in fatal_storage_errors(c) if f.get("node") == 1]
     return obs
+
